@@ -123,6 +123,8 @@ def execute(case):
                     log(ev="svc.action", k=k)
                     await sleep(0.5)
                     sig[k].set()
+                if (k + case.get("seed", 0)) % 2:
+                    return lambda: f()          # a plain callable that returns an awaitable (the documented lambda idiom)
                 return f
             if action == "call_raise":
                 def f():
@@ -136,6 +138,8 @@ def execute(case):
                     log(ev="svc.action", k=k)
                     await sleep(0.5)
                     raise Boom("action")
+                if (k + case.get("seed", 0)) % 2:
+                    return lambda: f()
                 return f
             raise ValueError(action)
 
